@@ -1258,16 +1258,21 @@ class Exec:
         if not any(it[1] != "-" for it in items):
             return None
         digest = hashlib.sha1(repr((sorted(items), sorted(set(ev_terms)))).encode()).hexdigest()[:14]
-        comp = app("COMP_" + digest, xs)
-        ent = asV(entry)
         kind = "list"
-        if all(self._closed_term(c) for cs, t in zitems for c in cs + ([t] if t is not None else [])):
-            # definition kept for fusion; only when it mentions nothing but the element and path-independent terms of this function
-            defs.setdefault("COMP_" + digest, {"items": zitems, "events": sorted(set(ev_terms)), "kind": None})
         if any(it[1].startswith("(SETITEM") for it in items):
             kind = "set"
         elif any(it[1].startswith("(DICTITEM") for it in items):
             kind = "dict"
+        if "COMP_" + digest not in defs:
+            # a definition met before that collects the same value for every element (decided by the solver, axioms included, with the
+            # element arbitrary) is the same function: its symbol is reused, so harmless rewordings of a body do not make a new function
+            same = self._equivalent_def(defs, zitems, sorted(set(ev_terms)), kind)
+            if same is not None:
+                digest = same[5:]
+            else:
+                defs["COMP_" + digest] = {"items": zitems, "events": sorted(set(ev_terms)), "kind": kind}
+        comp = app("COMP_" + digest, xs)
+        ent = asV(entry)
         if kind == "list" and items == [([], "ELEM")] and not ev_terms and not ent.eq(NIL_LIST):
             new = app("list_cat", ent, xs)                   # every element appended as it is: L.extend(xs)
         elif kind == "list":
@@ -1276,8 +1281,6 @@ class Exec:
             new = app("set_of", comp) if ent.eq(NIL_SET) else app("py_or", ent, app("set_of", comp))
         else:
             new = app("dict_of", comp) if ent.eq(NIL_DICT) else app("dict_update", ent, app("dict_of", comp))
-        if "COMP_" + digest in defs and defs["COMP_" + digest]["kind"] is None:
-            defs["COMP_" + digest]["kind"] = kind
         r = p.copy()
         self.loc_by_key(key).set(r, new)
         self.note_write(key)
@@ -1351,6 +1354,26 @@ class Exec:
         self.ctx.closed_loops = getattr(self.ctx, "closed_loops", 0) + 1
         return res
 
+    def _def_function(self, zitems):
+        """(present, value) of the value a definition collects for the element ELEM"""
+        pres = [z3.And(*cs) if cs else z3.BoolVal(True) for cs, t in zitems if t is not None]
+        present = z3.Or(*pres) if pres else z3.BoolVal(False)
+        value = z3.Const("UNSPEC", V)
+        for cs, t in zitems:
+            if t is not None:
+                value = z3.If(z3.And(*cs) if cs else z3.BoolVal(True), t, value)
+        return present, value
+
+    def _equivalent_def(self, defs, zitems, events, kind):
+        pa, va = self._def_function(zitems)
+        for name, d in defs.items():
+            if d["kind"] != kind or d["events"] != events:
+                continue
+            pb, vb = self._def_function(d["items"])
+            if self.ctx.proves(z3.And(pa == pb, z3.Implies(pa, va == vb))):
+                return name
+        return None
+
     def exists_over(self, seq, negated):
         """any(COMP_d(xs)) is  EX_h(xs)  with h a digest of the simplified condition  "some collected value is truthy"  of one element;
         all(COMP_d(xs)) is  Not EX_h'(xs)  for the condition "some collected value is falsy" (negated=True). So `not any(c(x) ...)` and
@@ -1370,6 +1393,16 @@ class Exec:
             alts.append(z3.And(*(list(cs) + [z3.Not(tr) if negated else tr])))
         f = z3.simplify(z3.Or(*alts)) if alts else z3.BoolVal(False)
         h = hashlib.sha1(f.sexpr().encode()).hexdigest()[:14]
+        exdefs = getattr(self.ctx, "ex_defs", None)
+        if exdefs is None:
+            exdefs = self.ctx.ex_defs = {}
+        if h not in exdefs:
+            for h2, f2 in exdefs.items():
+                if self.ctx.proves(f == f2):
+                    h = h2
+                    break
+            else:
+                exdefs[h] = f
         return pred("EX_" + h, seq.arg(0))
 
     def _truth(self, t):
